@@ -105,7 +105,7 @@ pub(crate) fn register_min_max(globals: &mut GlobalsBuilder) {
     /// max("two", "three", "four", key=len)  == "three"  # the longest
     /// # "#);
     /// ```
-    #[starlark(speculative_exec_safe)]
+    // Not `speculative_exec_safe`: `key` is called back, and it can be any (frozen) callable.
     fn max<'v>(
         #[starlark(args)] args: UnpackTuple<Value<'v>>,
         key: Option<Value<'v>>,
@@ -130,7 +130,7 @@ pub(crate) fn register_min_max(globals: &mut GlobalsBuilder) {
     /// min("two", "three", "four", key=len)    == "two"   # the shortest
     /// # "#);
     /// ```
-    #[starlark(speculative_exec_safe)]
+    // Not `speculative_exec_safe`: `key` is called back, and it can be any (frozen) callable.
     fn min<'v>(
         #[starlark(args)] args: UnpackTuple<Value<'v>>,
         key: Option<Value<'v>>,
